@@ -176,18 +176,22 @@ def e3_sigusr1(run, b, universe, seqs, fresh):
             for k, i in enumerate(seq):
                 with open(d.conf_path, 'w') as f:
                     f.write(conf_for(moddir, universe, tables[i], modules=mods, logs=LOGS))
+                try:
+                    size0 = os.path.getsize(logp)
+                except OSError:
+                    size0 = 0
                 d.signal(signal.SIGUSR1)
-                # the daemon is single-threaded: once the handler has logged, the reload completes before any further input is read
+                # the daemon is single-threaded: once the handler has logged anything, the reload (if it does one) completes before any further input
+                # is read.  The pinned handler logs "Re-reading config file"; a handler that logs something else, or nothing within 30 s, is not a
+                # harness matter - the probe below then shows whether the new file is in force
                 t0 = time.time()
                 while True:
                     try:
-                        got = open(logp).read().count('Re-reading config file')
+                        got = os.path.getsize(logp)
                     except OSError:
                         got = 0
-                    if got >= k + 1:
+                    if got > size0 or time.time() - t0 > 30 or not d.alive():
                         break
-                    if time.time() - t0 > 30:
-                        raise common.HarnessError('E3 daemon did not react to SIGUSR1 within 30 s')
                     time.sleep(0.01)
             lines = probes(1)['ok-ka1']
             base = len(d.lines())
